@@ -18,10 +18,12 @@ def register_all(w):
         "key": f"{F}::aggregate_node_transformer.visit_Call",
         "self": f"{F}::aggregate_node_transformer",
         "params": {"node": "py"},
-        "requires": ["isinstance(node, ast.Call)", "agg_kwfree(node)"],
+        "requires": ["isinstance(node, ast.Call)", "wf(node)", "agg_kwfree(node)"],
         "ensures": ["same(result, agg_lower(node))"],
         "raises": {},
         "modifies": ["*"],     # a NodeTransformer: in-place rewriting of its input is its job
+        "native": {"imports": "from func_adl.ast.aggregate_shortcuts import aggregate_node_transformer",
+                   "call": "aggregate_node_transformer().visit_Call(node)"},
         "properties": ["C19"],
     })
     C.register(w, {
@@ -38,3 +40,130 @@ def register_all(w):
 
 
 register = register_all
+
+
+# ---------------------------------------------------------------------------------------------
+# Witness inference for the fold lambdas.  The spec leaves the lambda of each fold abstract
+# (fold_lambda(kind)); the witness is whatever ground Lambda term the real code produces, accepted
+# only if z3 proves its body is the kind's step function over the integers:
+#   count: f(acc,v) = acc+1    sum: acc+v    max: max(acc,v)    min: min(acc,v)
+# (that a left fold of these from 0 is len / sum / max(0::l) / min(0::l) is the Lean lemma layer).
+import ast as _ast
+import z3 as _z3
+
+KIND_SEM = {
+    "count": lambda a, v: a + 1,
+    "sum": lambda a, v: a + v,
+    "max": lambda a, v: _z3.If(a >= v, a, v),
+    "min": lambda a, v: _z3.If(a <= v, a, v),
+}
+
+
+def _int_expr(n, env):
+    if isinstance(n, _ast.Name) and n.id in env:
+        return env[n.id]
+    if isinstance(n, _ast.Constant) and isinstance(n.value, int) and not isinstance(n.value, bool):
+        return _z3.IntVal(n.value)
+    if isinstance(n, _ast.BinOp) and isinstance(n.op, (_ast.Add, _ast.Sub, _ast.Mult)):
+        a, b = _int_expr(n.left, env), _int_expr(n.right, env)
+        return {_ast.Add: a + b, _ast.Sub: a - b, _ast.Mult: a * b}[type(n.op)]
+    if isinstance(n, _ast.IfExp):
+        return _z3.If(_bool_expr(n.test, env), _int_expr(n.body, env), _int_expr(n.orelse, env))
+    raise ValueError(f"not an integer step function: {_ast.dump(n)}")
+
+
+def _bool_expr(n, env):
+    if isinstance(n, _ast.Compare) and len(n.ops) == 1:
+        a, b = _int_expr(n.left, env), _int_expr(n.comparators[0], env)
+        return {_ast.Lt: a < b, _ast.LtE: a <= b, _ast.Gt: a > b, _ast.GtE: a >= b,
+                _ast.Eq: a == b, _ast.NotEq: a != b}[type(n.ops[0])]
+    raise ValueError("condition form")
+
+
+def lambda_kind(lam_node):
+    """Which fold kinds is this concrete Lambda a step function of (proved by z3 over Int)?"""
+    out = []
+    if not (isinstance(lam_node, _ast.Lambda) and len(lam_node.args.args) == 2
+            and not lam_node.args.defaults and not lam_node.args.kwonlyargs
+            and lam_node.args.vararg is None and lam_node.args.kwarg is None):
+        return out
+    a, v = _z3.Int("acc"), _z3.Int("v")
+    try:
+        body = _int_expr(lam_node.body, {lam_node.args.args[0].arg: a, lam_node.args.args[1].arg: v})
+    except (ValueError, KeyError):
+        return out
+    for k, sem in KIND_SEM.items():
+        s = _z3.Solver()
+        s.set("timeout", 5000)
+        s.add(body != sem(a, v))
+        if s.check() == _z3.unsat:
+            out.append(k)
+    return out
+
+
+def _ground_lambdas(w, terms):
+    S = w.S
+    found = {}
+    seen = set()
+    stack = list(terms)
+    while stack:
+        t = stack.pop()
+        if t.get_id() in seen:
+            continue
+        seen.add(t.get_id())
+        if _z3.is_app(t):
+            if t.sort() == S.Py and t.decl().name() == "Lambda" and _is_ground(t):
+                found[t.get_id()] = t
+            stack.extend(t.children())
+    return list(found.values())
+
+
+def _is_ground(t):
+    stack = [t]
+    seen = set()
+    while stack:
+        x = stack.pop()
+        if x.get_id() in seen:
+            continue
+        seen.add(x.get_id())
+        if not _z3.is_app(x):
+            return False
+        k = x.decl().kind()
+        if k == _z3.Z3_OP_UNINTERPRETED:
+            return False
+        stack.extend(x.children())
+    return True
+
+
+def prepare(w, r):
+    if not r.key.endswith("aggregate_node_transformer.visit_Call"):
+        return
+    from pyvc import solve
+    from pyvc.symex import Obligation
+    terms = []
+    for ob in r.obligations:
+        terms.extend(ob.pc)
+        terms.append(ob.goal)
+    witnesses = {}
+    for lam in _ground_lambdas(w, terms):
+        src = solve.term_to_source(w.S, lam)
+        try:
+            node = eval(src, {"ast": _ast})
+            _ast.fix_missing_locations(node)
+        except Exception:
+            continue
+        for k in lambda_kind(node):
+            witnesses.setdefault(k, (lam, _ast.unparse(node)))
+    fl = w.ufun("fold_lambda", _z3.StringSort(), w.S.Py)
+    facts = []
+    for k, (lam, text) in sorted(witnesses.items()):
+        facts.append(fl(_z3.StringVal(k)) == lam)
+        ob = Obligation(r.key, "lemma", f"fold-step[{k}]", [], _z3.BoolVal(True), None,
+                        note=f"z3 over Int: `{text}` is the {k} step function")
+        ob.trivial = True
+        r.obligations.append(ob)
+    r.notes.append("fold-lambda witnesses: " + ", ".join(f"{k}: {t}" for k, (_, t) in
+                                                       sorted(witnesses.items())))
+    for ob in r.obligations:
+        if ob.kind in ("post",):
+            ob.pc = list(ob.pc) + facts
